@@ -116,6 +116,11 @@ func thoroughAudit(c *Check, repo, verif string) {
 	for _, s := range seeds {
 		if s.Property == c.Property {
 			sel = append(sel, s)
+		} else if s.Property == "ALL" {
+			cp := *s
+			cp.Property = c.Property
+			cp.ID = s.ID + "@" + c.Property
+			sel = append(sel, &cp)
 		}
 	}
 	// VERIF_SEED only permutes the order
